@@ -41,6 +41,7 @@ namespace sim
 		, m_forward_timer(ios)
 		, m_last_forward(chrono::high_resolution_clock::now())
 		, m_forwarding(false)
+		, m_alive(std::make_shared<int>(0))
 	{}
 
 	std::string queue::label() const
@@ -105,16 +106,24 @@ namespace sim
 		if (m_queue.front().ts > now)
 		{
 			m_forward_timer.expires_at(m_queue.front().ts);
-			m_forward_timer.async_wait(make_malloc(std::bind(&queue::begin_send_next_packet
-				, this)));
+			std::weak_ptr<int> alive = m_alive;
+			m_forward_timer.async_wait(make_malloc([this, alive](boost::system::error_code const&)
+			{
+				if (alive.expired()) return;
+				begin_send_next_packet();
+			}));
 			return;
 		}
 
 		m_last_forward = now;
 		if (m_bandwidth == 0)
 		{
-			post(m_forward_timer.get_executor(), make_malloc(std::bind(&queue::next_packet_sent
-				, this)));
+			std::weak_ptr<int> alive = m_alive;
+			post(m_forward_timer.get_executor(), make_malloc([this, alive]
+			{
+				if (alive.expired()) return;
+				next_packet_sent();
+			}));
 			return;
 		}
 		const double nanoseconds_per_byte = 1000000000.0
@@ -127,8 +136,12 @@ namespace sim
 			boost::int64_t(nanoseconds_per_byte * packet_size)));
 
 		m_forward_timer.expires_at(m_last_forward);
-		m_forward_timer.async_wait(make_malloc(std::bind(&queue::next_packet_sent
-			, this)));
+		std::weak_ptr<int> alive = m_alive;
+		m_forward_timer.async_wait(make_malloc([this, alive](boost::system::error_code const&)
+		{
+			if (alive.expired()) return;
+			next_packet_sent();
+		}));
 	}
 
 	void queue::next_packet_sent()
